@@ -1650,6 +1650,9 @@ defop("expand_take", 1, _g_expand_take, lambda p, a: _expand_take(np, p, a), lam
 def _g_move(g, ins):
     (a,) = ins
     need(a.ndim >= 1 and a.np.dtype == np.float64 and a.np.size > 0)
+    # bottleneck's running sums are history dependent once an inf has passed through the window (inf - inf = nan for
+    # every later window of the whole array, but not across a block restart): only NaN and finite inputs have a definition
+    need(not np.isinf(a.np).any())
     ax = g.rng.randrange(a.ndim)
     n = a.shape[ax]
     need(n >= 2)
